@@ -9,7 +9,9 @@
    clamped to 1..min(requested, remaining); an exhausted oracle means full reads).
    The io.Writer never fails.  DataParts (output-only, never set by a decoder) is not modelled.
    `strict` selects the text of the range check in the in-memory branch of ReadData/CopyData:
-   false = pinned tree (`end >= dataLen`), true = repaired tree (`end > dataLen`). *)
+   false = pinned tree (`end >= dataLen`), true = repaired tree (`end > dataLen`).
+   `guard` selects the head of the work-buffer refill loop of CopySampleData: false = pinned tree
+   (`for {`), true = repaired tree (`for nrLeft > 0 {`). *)
 From V.lib Require Import Base.
 
 Definition sub {A} (l : list A) (start size : N) : list A :=
@@ -232,3 +234,120 @@ Definition mdat_mem (file : list N) (startPos : N) (large : bool) (payloadLen : 
   mkMdat startPos (sub file (startPos + (if large then 16 else 8)) payloadLen) 0 large.
 Definition mdat_lazy (startPos : N) (large : bool) (payloadLen : N) : mdat :=
   mkMdat startPos [] payloadLen large.
+
+(* ------------------------------------------------------------------ File.CopySampleData *)
+(* Chunk as returned by StscBox.GetContainingChunks; table view: stsz (per-sample sizes with the
+   uniform fallback of GetSampleSize) and stco/co64 chunk offsets.  Sample and chunk numbers are
+   Go uint32 (the wrap of `startNr + NrSamples - 1` is written out); the int64/uint64 sums of sample
+   sizes are not wrapped (they are bounded by the file length in every theorem). *)
+Record chunk := mkChunk { cnr : N; cstart : N; cn : N }.
+Record stbl := mkStbl { sample_sizes : list N; uniform_size : N; chunk_offsets : list N }.
+
+(* StszBox.GetSampleSize(i int) *)
+Definition get_sample_size (tb : stbl) (i : N) : res N :=
+  if lenN (sample_sizes tb) <? i then Ok (uniform_size tb)
+  else if i =? 0 then Panic                         (* b.SampleSize[-1] *)
+  else Ok (nth (N.to_nat (i - 1)) (sample_sizes tb) 0).
+
+(* Stco/Co64.GetOffset(chunkNr int) *)
+Definition get_chunk_offset (tb : stbl) (chunkNr : N) : res N :=
+  if (chunkNr =? 0) || (lenN (chunk_offsets tb) <? chunkNr) then Err
+  else Ok (nth (N.to_nat (chunkNr - 1)) (chunk_offsets tb) 0).
+
+(* for sNr := from; <count times>; sNr++ { acc += GetSampleSize(sNr) } *)
+Fixpoint sum_sizes (tb : stbl) (from : N) (count : nat) : res N :=
+  match count with
+  | O => Ok 0
+  | S c => do s <- get_sample_size tb from; do rest <- sum_sizes tb (from + 1) c; Ok (s + rest)
+  end.
+
+(* the table part of one iteration of `for i, chunk := range chunks`: (offset, size) *)
+Definition chunk_seg (tb : stbl) (c : chunk) (first last : bool) (startSampleNr endSampleNr : N)
+  : res (N * N) :=
+  let startNr := cstart c in
+  let endNr := u32 (startNr + cn c + 4294967295) in          (* startNr + NrSamples - 1 in uint32 *)
+  match get_chunk_offset tb (cnr c) with
+  | Ok offset0 =>
+      do (offset, startNr1) <-
+         (if first then
+            do skip <- sum_sizes tb (cstart c) (N.to_nat (startSampleNr - cstart c));
+            Ok (u64 (offset0 + skip), startSampleNr)
+          else Ok (offset0, startNr));
+      let endNr1 := if last then endSampleNr else endNr in
+      do size <- sum_sizes tb startNr1 (N.to_nat (endNr1 + 1 - startNr1));
+      Ok (offset, size)
+  | _ => Err
+  end.
+
+(* state of the data-moving part: reader, work buffer, workPos, bytes written to w so far *)
+Record mstate := mkMS { ms_rs : rsk; ms_buf : list N; ms_pos : N; ms_out : list N }.
+
+(* copy(workSpace[pos:], d) as done by Read *)
+Definition buf_write (buf : list N) (pos : N) (d : list N) : list N :=
+  firstn (N.to_nat pos) buf ++ d ++ skipn (N.to_nat pos + length d) buf.
+
+(* the refill loop `for nrLeft > 0 { end := min(workLen, workPos+nrLeft); n, err := rs.Read(workSpace[workPos:end]) ... }`
+   guard = true: repaired text; guard = false: pinned text `for {` (always reads once) *)
+Fixpoint work_loop (guard : bool) (fuel : nat) (file : list N) (zeof : bool) (workLen : N) (st : mstate) (nrLeft : N)
+  : res mstate :=
+  match fuel with
+  | O => OutOfFuel
+  | S f =>
+      if guard && (nrLeft =? 0) then Ok st else
+      let workPos := ms_pos st in
+      let endp := N.min workLen (workPos + nrLeft) in
+      if endp <? workPos then Panic else
+      let '(d, eof, r') := rs_read file zeof (ms_rs st) (endp - workPos) in
+      if eof then Err
+      else
+        let n := lenN d in
+        let buf' := buf_write (ms_buf st) workPos d in
+        let nrLeft' := nrLeft - n in
+        let workPos' := workPos + n in
+        if nrLeft' =? 0 then Ok (mkMS r' buf' workPos' (ms_out st))
+        else if workPos' =? workLen then
+          work_loop guard f file zeof workLen (mkMS r' buf' 0 (ms_out st ++ buf')) nrLeft'   (* w.Write(workSpace) *)
+        else work_loop guard f file zeof workLen (mkMS r' buf' workPos' (ms_out st)) nrLeft'
+  end.
+
+(* the data part of one iteration *)
+Definition move_seg (guard : bool) (file : list N) (zeof : bool) (m : mdat) (workLen : N) (seg : N * N) (st : mstate)
+  : res mstate :=
+  let '(offset, size) := seg in
+  if is_lazy m then
+    do r1 <- rs_seek_start (ms_rs st) (if offset <? 9223372036854775808 then Z.of_N offset
+                                       else (Z.of_N offset - two64)%Z);   (* int64(offset) *)
+    if workLen =? 0 then
+      do (d, r2) <- copy_n file zeof r1 (Z.of_N size);
+      Ok (mkMS r2 (ms_buf st) (ms_pos st) (ms_out st ++ d))
+    else
+      work_loop guard (S (S (2 * N.to_nat size))) file zeof workLen
+                (mkMS r1 (ms_buf st) (ms_pos st) (ms_out st)) size
+  else
+    let off := u64z (Z.of_N offset - Z.of_N (payload_abs_offset m)) in
+    let endi := u64 (off + size) in
+    if (endi <? off) || (lenN (Data m) <? endi) then Panic      (* mdat.Data[off : off+uint64(size)] *)
+    else Ok (mkMS (ms_rs st) (ms_buf st) (ms_pos st) (ms_out st ++ sub (Data m) off (endi - off))).
+
+Fixpoint chunks_loop (guard : bool) (file : list N) (zeof : bool) (m : mdat) (tb : stbl) (workLen : N)
+         (startSampleNr endSampleNr : N) (chunks : list chunk) (first : bool) (st : mstate) : res mstate :=
+  match chunks with
+  | [] => Ok st
+  | c :: rest =>
+      do seg <- chunk_seg tb c first (match rest with [] => true | _ => false end) startSampleNr endSampleNr;
+      do st' <- move_seg guard file zeof m workLen seg st;
+      chunks_loop guard file zeof m tb workLen startSampleNr endSampleNr rest false st'
+  end.
+
+(* CopySampleData after GetContainingChunks returned `chunks` (progressive file, stco or co64 present);
+   workSpace = the initial contents of the work buffer.  Returns everything written to w. *)
+Definition copy_sample_data (guard : bool) (file : list N) (zeof : bool) (m : mdat) (rs : option rsk) (tb : stbl)
+           (chunks : list chunk) (startSampleNr endSampleNr : N) (workSpace : list N) : res (list N) :=
+  match (if is_lazy m then rs else Some (match rs with Some r => r | None => mkRS 0 [] end)) with
+  | None => Err                                             (* no ReadSeeker for lazy mdat *)
+  | Some r =>
+      do st <- chunks_loop guard file zeof m tb (lenN workSpace) startSampleNr endSampleNr chunks true
+                           (mkMS r workSpace 0 []);
+      if 0 <? ms_pos st then Ok (ms_out st ++ firstn (N.to_nat (ms_pos st)) (ms_buf st))
+      else Ok (ms_out st)
+  end.
